@@ -196,9 +196,16 @@ func (db *LeveldbPermanent) State(key string) (st base.State, found bool, _ erro
 		return i, j, nil
 	}
 
-	pst, err := db.st()
-	if err != nil {
-		return nil, false, err
+	// NOTE the read lock is kept until the state is cached; MergeTempDatabase,
+	// which keeps the write lock, can not update and purge the same state
+	// between the read from the storage and the update of cache. If not, old
+	// state can be remained in cache.
+	db.RLock()
+	defer db.RUnlock()
+
+	pst := db.pst
+	if pst == nil {
+		return nil, false, storage.ErrClosed.WithStack()
 	}
 
 	switch b, found, err := pst.Get(leveldbStateKey(key)); {
